@@ -221,11 +221,15 @@ func (r *Reader) NextFrame() (hdr ws.Header, err error) {
 	if r.fragmented() {
 		if hdr.OpCode.IsControl() {
 			if cb := r.OnIntermediate; cb != nil {
-				err = cb(hdr, frame)
+				err = cb(hdr, &truncationReader{frame, &r.raw})
 			}
 			if err == nil {
 				// Ensure that src is empty.
 				_, err = io.Copy(ioutil.Discard, &r.raw)
+			}
+			if err == nil && r.raw.N != 0 {
+				// Source ended before the announced frame length.
+				err = io.ErrUnexpectedEOF
 			}
 			return hdr, err
 		}
@@ -253,6 +257,23 @@ func (r *Reader) NextFrame() (hdr ws.Header, err error) {
 	}
 
 	return hdr, err
+}
+
+// truncationReader reads the payload of an intermediate control frame. It
+// turns the io.EOF of a source that ended before the announced frame length
+// into io.ErrUnexpectedEOF, so that handlers can not take a truncated payload
+// for a complete one.
+type truncationReader struct {
+	r   io.Reader
+	raw *io.LimitedReader
+}
+
+func (t *truncationReader) Read(p []byte) (n int, err error) {
+	n, err = t.r.Read(p)
+	if err == io.EOF && t.raw.N != 0 {
+		err = io.ErrUnexpectedEOF
+	}
+	return n, err
 }
 
 func (r *Reader) fragmented() bool {
